@@ -2,12 +2,12 @@
    q_class q t = 0: the query / table lies outside every recorded class; k > 0: class k.
    The classes are decidable and narrow; each is refuted by a concrete query in Proof/AggRefute.v
    and listed in known_findings.d/C16.json.  Still open:
-     6  HAVING mentions a GROUP BY key that is not a plain column   (it reads as NULL)
-     5  an aggregate over an expression is looked up BY NAME (HAVING, or a select list that also
+    10  HAVING mentions a GROUP BY key that is not a plain column   (it reads as NULL)
+     9  an aggregate over an expression is looked up BY NAME (HAVING, or a select list that also
         selects an expression key): the name is the bare function name, shared by every such
         aggregate of that function and by COUNT( * )
      8  an aggregate over a join (Corr/C16.v; Model/AggJoin.v)
-   Repaired in /repo (classes 1 2 3 4 7 and the former, wider 5 and 6): COUNT(col) counted NULLs; SUM
+   Repaired in /repo (the former classes 1 .. 7): COUNT(col) counted NULLs; SUM
    over no non-NULL value was 0; integer SUM / AVG overflow panicked; MIN / MAX over TEXT were NULL; an
    aggregate over an expression aggregated column 0; GROUP BY over an expression showed NULL and
    merged groups; HAVING over an unselected aggregate kept no group. *)
@@ -69,8 +69,8 @@ Definition cls_arg_expr (q : aquery) : bool :=
   existsb bad (having_cols q) || (sel_expr_key q && existsb bad (q_sel q)).
 
 Definition q_class (q : aquery) (t : table) : Z :=
-  if cls_key_expr q then 6
-  else if cls_arg_expr q then 5
+  if cls_key_expr q then 10
+  else if cls_arg_expr q then 9
   else 0.
 
 (* ------------------------------------------------------------------ one aggregate over one list of values *)
